@@ -1,5 +1,5 @@
 From Tramp Require Import Model.Base Model.Fee Model.Classify Model.Node Model.Provider Model.ProviderSys Model.Sys.
-From Tramp Require Import Proofs.SysBasics Proofs.SysShape Proofs.SysTheorems Proofs.SysReach Proofs.SysCalls Proofs.SysNode Proofs.SysSafety Proofs.SysLive Props.C02.
+From Tramp Require Import Proofs.SysBasics Proofs.SysShape Proofs.SysTheorems Proofs.SysReach Proofs.SysCalls Proofs.SysNode Proofs.SysSafety Proofs.SysLive Proofs.SysTerm Props.C02.
 Check C02_fail_only_when_nothing_live : forall c n t0 h0 a0 evs ev h m,
   node_ok n -> hist_wf true c (sys_start n t0 h0 a0) evs ->
   let s := after c n t0 h0 a0 evs in
@@ -17,6 +17,13 @@ Check C02_completed_is_settled : forall c n t0 h0 a0 evs en h p0,
   node_ok n -> hist_wf true c (sys_start n t0 h0 a0) evs ->
   let s := after c n t0 h0 a0 evs in
   has_done p0 (parts (nd s)) -> entry_ (pl s) = Some en -> In h (listeners en) -> Settled c (hid h) s.
+Check C02_completed_is_settled_on_every_run : forall c n t0 h0 a0 evs evs' p,
+  node_ok n -> hist_wf true c (sys_start n t0 h0 a0) (evs ++ evs') ->
+  has_done p (parts (nd (after c n t0 h0 a0 evs))) ->
+  (forall k ev h m, nth_error evs' k = Some ev ->
+     ~ In (OResp h (Fail m)) (snd (step c (after c n t0 h0 a0 (evs ++ firstn k evs')) ev))) /\
+  (let s' := after c n t0 h0 a0 (evs ++ evs') in
+   (forall ev, progress_ev s' ev = true -> ev_wf true s' ev -> ~ seffective c s' ev) -> entry_ (pl s') = None).
 Print Assumptions C02_completed_is_settled.
 (* the hypotheses, spelled out so that they cannot be strengthened unnoticed *)
 Check (eq_refl : node_ok = fun n => payrun n = 0 /\ (busy n -> hot n) /\ forall g, ds n <> Some (DGarbage, g)).
@@ -32,3 +39,4 @@ Print Assumptions C02_fail_only_when_nothing_live.
 Print Assumptions C02_held_while_pending.
 Print Assumptions C02_never_failed_after_completion.
 Print Assumptions C02_restart_settles_or_waits.
+Print Assumptions C02_completed_is_settled_on_every_run.
